@@ -42,7 +42,22 @@ for name in sorted(os.listdir(os.path.join(VERIF, "seeded"))):
     json.dump(meta, open(meta_path, "w"), indent=1, sort_keys=True)
     rows.append((name, prop, bool(caught), ", ".join(sorted(set(c["check_id"] for c in caught)))))
     print(name, "CAUGHT" if caught else "MISSED", rows[-1][3][:150], flush=True)
+# the table is rebuilt from every meta.json, so a partial re-run (ids given) keeps the other rows
+table = []
+for name in sorted(os.listdir(os.path.join(VERIF, "seeded"))):
+    meta_path = os.path.join(VERIF, "seeded", name, "meta.json")
+    if not os.path.exists(meta_path):
+        continue
+    meta = json.load(open(meta_path))
+    ids = ", ".join(sorted(set(c["check_id"] for c in meta.get("caught_by", []))))
+    props = ", ".join(sorted(set(c["check_property"] for c in meta.get("caught_by", []))))
+    budget = re.search(r"patch\.diff \S+ (\d+)", meta.get("ran", ""))
+    table.append((name, meta.get("property", name.split("-")[0]),
+                  "yes" if meta.get("caught") else "NO", props, ids,
+                  (budget.group(1) + " s") if budget else "", meta.get("note", "")[:160]))
 with open(os.path.join(VERIF, "seeded", "RESULTS.md"), "w") as fh:
-    fh.write("| seeded change | property | caught | by check_id |\n|---|---|---|---|\n")
-    for r in rows:
-        fh.write("| %s | %s | %s | %s |\n" % (r[0], r[1], "yes" if r[2] else "NO", r[3]))
+    fh.write("| seeded change | property | caught | by the check of | check_id | budget per "
+             "check | note |\n|---|---|---|---|---|---|---|\n")
+    for r in table:
+        fh.write("| %s | %s | %s | %s | %s | %s | %s |\n" % r)
+    fh.write("\n%d changes, %d caught.\n" % (len(table), sum(1 for r in table if r[2] == "yes")))
